@@ -173,7 +173,7 @@ Section WithFloat.
     end.
 
   (** the read loop: up to [n] records; any error (io.EOF or not) ends the input *)
-  Fixpoint read_chunk (evs : list ev) (n : nat) : list row * list ev * bool :=
+  Fixpoint read_chunk (evs : list ev) (n : nat) {struct n} : list row * list ev * bool :=
     match n with
     | O => ([], evs, false)
     | S n' =>
